@@ -4,6 +4,9 @@ import json, os, subprocess
 HERE = os.path.dirname(os.path.abspath(__file__))
 
 CHECKS = {
+ "C14": dict(cat="exploration", tech="runtime monitoring: every built-in method x exhaustive boundary receivers/arguments + seeded random, printed value and run-time kind (H-KIND) compared with one model function per method and with the declared `typeof`",
+   text="For each string and number built-in of the statement the catalogue enumerates boundary receivers and arguments (empty/1-char/ASCII/multi-byte text, indices -1,0,len-1,len,len+1, numeric extremes of each kind, exponents, radices 0,1,2,10,16,36,37) and seeded random values; each probe prints `typeof (E)` and `E` with typed printing; the model gives the accepted outcomes (value, kind, or failure) per probe. Inside the domain a failure or wrong value/kind is a violation; outside it any stop is accepted and a value is a violation. Deviations are re-run alone before being reported.",
+   note="Trusted: models/builtins.py following the meanings documented by tests/builtins.rs; where the statement leaves a meaning open (byte vs character units on multi-byte text, 0x-prefixed input to parse_int) every reading is accepted and listed in evidence.", ref="§3 C14"),
  "C10": dict(cat="fault_enumeration", tech="runtime monitoring / fault catalogue: exhaustive product declaration context x write form x write context, real compiler run on each program; rejection, diagnostic position and a run sentinel observed; accepted writes additionally print the constant",
    text="The whole product (33 read-only declaration contexts x 35 write forms x 9 write contexts, filtered by applicability tables written as data; ~2200 programs plus non-const twins and controls) is compiled and run: every program must be rejected at compile time with a diagnostic on the write's line and must not print the sentinel; controls show the base is accepted and prints the initializer. Exhaustive in both tiers.",
    note="Trusted: the applicability tables (reviewed against grammar.pest); names imported with `import x from m` are local copies by the repository's own test (assignments::not_import_const_bypass), so writes to them are accepted and only `m.x` is asserted unchanged.", ref="§3 C10"),
